@@ -139,6 +139,7 @@ type OpResult struct {
 	Faults  []FaultAt // faults that fired inside this op
 	Phase   string    // setup | main | post
 	Skipped bool
+	Pages   []WalkPage // KWalk: the pages in the order they were fetched
 }
 
 // elemClass classifies the effect an element is entitled to: "yes" (exactly one log), "no" (none),
